@@ -13,7 +13,10 @@ from props import _notes
 
 def base_text(variant=0):
     """The concrete chart whose shape ChartObject.tla's Store0 describes."""
-    g = ["0 = N 0 0", "96 = N 1 48", "96 = N 2 96", "192 = N 7 0", "192 = N 5 0", "200 = S 2 300", "256 = N 3 0",
+    # (the FIRST note rings past every later one - 0 + 2000 > 1500: the note that ends last is neither the last nor the last
+    #  but one, so a track end derived from the final notes alone is wrong; round 12, seeded/C19l: a rate query that primes the
+    #  cached last_note_end_timestamp with such a shortcut)
+    g = ["0 = N 0 2000", "96 = N 1 48", "96 = N 2 96", "192 = N 7 0", "192 = N 5 0", "200 = S 2 300", "256 = N 3 0",
          "256 = N 6 0", "300 = E solo", "400 = N 4 1000", "1500 = N 0 0"]
     if variant == 1:
         g = ["0 = N 7 10", "10 = S 2 5", "12 = N 0 0", "12 = N 4 7", "13 = N 1 0"]
@@ -44,7 +47,7 @@ def base_text(variant=0):
         song=['Name = "twin"', "Offset = 0", "Player2 = bass"],
         sync=["0 = TS 4", "0 = B 120000", "384 = B 90500", "768 = TS 3 3", "1000 = B 200000", "1000 = A 5000000"],
         events=['0 = E "section intro"', '96 = E "lyric la"', '192 = E "custom"'],
-        tracks={"ExpertSingle": g, "HardSingle": ["0 = S 2 100", "50 = E solo"], "EasyDoubleBass": ["0 = N 0 0", "500 = N 1 20"]},
+        tracks={"ExpertSingle": g, "HardSingle": ["0 = S 2 100", "50 = E solo"], "EasyDoubleBass": ["0 = N 0 3000", "500 = N 1 20", "600 = N 2 0"]},
     )
 
 
